@@ -189,6 +189,50 @@ def size_thresholds(relpaths, lo=24, hi=1 << 15):
     return out
 
 
+def big_constants(relpaths, lo=1 << 15, hi=1 << 28):
+    """integer constants of the CURRENT source beyond the sizes a symbolic run can reach (lo..hi), written as literals or as constant
+    expressions (2**24, 16 * 1024 * 1024) in assignments and comparisons: {value: ["file:line", ...]}"""
+    import ast
+    import os
+    import pathlib
+
+    def ev(n):
+        if isinstance(n, ast.Constant) and type(n.value) is int:
+            return n.value
+        if isinstance(n, ast.BinOp) and isinstance(n.op, (ast.Pow, ast.Mult, ast.LShift, ast.Add, ast.Sub, ast.FloorDiv)):
+            a, b = ev(n.left), ev(n.right)
+            if a is None or b is None or (isinstance(n.op, (ast.Pow, ast.LShift)) and not 0 <= b <= 40):
+                return None
+            try:
+                return {ast.Pow: lambda: a**b, ast.Mult: lambda: a * b, ast.LShift: lambda: a << b, ast.Add: lambda: a + b, ast.Sub: lambda: a - b, ast.FloorDiv: lambda: a // b}[type(n.op)]()
+            except Exception:  # noqa
+                return None
+        return None
+
+    repo = os.environ.get("QUANTO_REPO", "/repo")
+    out = {}
+    for rel in relpaths:
+        try:
+            tree = ast.parse((pathlib.Path(repo) / rel).read_text())
+        except Exception:  # noqa
+            continue
+        for n in ast.walk(tree):
+            cands = []
+            if isinstance(n, (ast.Assign, ast.AnnAssign)) and n.value is not None:
+                cands = [n.value]
+            elif isinstance(n, ast.Compare):
+                cands = [n.left] + list(n.comparators)
+            elif isinstance(n, ast.keyword):
+                cands = [n.value]
+            for c in cands:
+                v = ev(c)
+                if v is not None and lo <= v <= hi:
+                    out.setdefault(v, [])
+                    if f"{rel}:{c.lineno}" not in out[v]:
+                        out[v].append(f"{rel}:{c.lineno}")
+    return out
+
+
 QUANTIZER_FILES = [
     "optimum/quanto/tensor/optimizers/absmax_optimizer.py", "optimum/quanto/tensor/optimizers/affine_optimizer.py", "optimum/quanto/tensor/optimizers/max_optimizer.py",
     "optimum/quanto/tensor/optimizers/symmetric_optimizer.py", "optimum/quanto/tensor/optimizers/optimizer.py", "optimum/quanto/tensor/quantizers/symmetric.py",
